@@ -377,24 +377,26 @@ func genSpkCase(rt *rapid.T) spkCase {
 // ---- simulator -------------------------------------------------------------------
 
 type spkSim struct {
-	w       *vw.World
-	cl      vw.ClusterSpec
-	c       *controller
-	bgpc    *bgpController
-	rec     *recManager
-	ann     *layer2.Announce
-	sl      *vfSpeakerList
-	lis     *k8s.Listener
-	svcRec  *controllers.ServiceReconciler
-	nodeRec *controllers.NodeReconciler
-	cfgRec  *controllers.ConfigReconciler
-	reload  chan event.GenericEvent
-	pending []string
-	cfgSeen vw.ClusterSpec // CRs of the last configuration the speaker accepted
-	hasCfg  bool
-	current func() vw.ClusterSpec
-	svcSeen bool // some service was already handed to the speaker
-	lateNew bool // a node was seen for the first time after that
+	w         *vw.World
+	cl        vw.ClusterSpec
+	c         *controller
+	bgpc      *bgpController
+	rec       *recManager
+	ann       *layer2.Announce
+	sl        *vfSpeakerList
+	lis       *k8s.Listener
+	svcRec    *controllers.ServiceReconciler
+	nodeRec   *controllers.NodeReconciler
+	cfgRec    *controllers.ConfigReconciler
+	reload    chan event.GenericEvent
+	pending   []string
+	cfgCalls  int            // ConfigChanged invocations
+	lastCfgOK bool           // the last one was accepted
+	cfgSeen   vw.ClusterSpec // CRs of the last configuration the speaker accepted
+	hasCfg    bool
+	current   func() vw.ClusterSpec
+	svcSeen   bool // some service was already handed to the speaker
+	lateNew   bool // a node was seen for the first time after that
 }
 
 func newSpkSim(w *vw.World, sl *vfSpeakerList, ignore bool) *spkSim {
@@ -430,6 +432,8 @@ func newSpkSim(w *vw.World, sl *vfSpeakerList, ignore bool) *spkSim {
 		},
 		ConfigChanged: func(l log.Logger, cfg *config.Config) controllers.SyncState {
 			res := c.SetConfig(l, cfg)
+			s.cfgCalls++
+			s.lastCfgOK = res == controllers.SyncStateReprocessAll || res == controllers.SyncStateSuccess
 			if res == controllers.SyncStateReprocessAll || res == controllers.SyncStateSuccess {
 				s.hasCfg = true
 				if s.current != nil {
@@ -873,7 +877,8 @@ func l2Sig(hist, fresh map[string][]layer2.VerifAdv) string {
 	return "l2-missing-announcement"
 }
 
-func runSpk(c spkCase, tr *vw.Trace, j05, j09 bool) *vw.Violation {
+func runSpk(c spkCase, tr *vw.Trace, j05, j09 bool, extra ...string) *vw.Violation {
+	j18 := len(extra) > 0 && extra[0] == "c18"
 	r := &spkRun{c: c, tr: tr, w: vw.NewWorld(), sl: &vfSpeakerList{info: speakerlist.SpeakerListInfo{Disabled: c.Disabled, Nodes: map[string]bool{}}}, ever: map[string]bool{}, j05: j05, j09: j09}
 	r.cl = c.Cluster
 	r.w.SetCluster(r.cl)
@@ -1005,6 +1010,20 @@ func runSpk(c spkCase, tr *vw.Trace, j05, j09 bool) *vw.Violation {
 			if v := r.atQuiescence(label); v != nil {
 				return v
 			}
+			if j18 && r.sim.hasCfg && r.sim.lastCfgOK {
+				// one more reconcile of the unchanged store: the speaker that announced services out of the remembered
+				// configuration must not be handed that configuration again
+				before := r.sim.cfgCalls
+				r.sim.enqueue("config")
+				if v := r.sim.settle(); v != nil {
+					return v
+				}
+				if r.sim.cfgCalls != before {
+					return vw.Violationf("unchanged-configuration-reloaded", "%s: reconciling the unchanged resources again delivered the configuration to the speaker %d more time(s)", label, r.sim.cfgCalls-before)
+				}
+				tr.Class("unchanged-configuration-not-reloaded")
+				tr.NonTrivial()
+			}
 		}
 		if os.Getenv("VERIF_TRACE") != "" {
 			sn := r.sim.snapshot(r.keys())
@@ -1061,4 +1080,9 @@ func TestVerifC04Spk(t *testing.T) {
 func TestVerifC13Spk(t *testing.T) {
 	vw.Run(t, vw.Options{Property: "C13", Engine: "speaker", Rule: spkRule + "; at every quiescence the addresses (and interface scopes) the real announcer of this speaker holds - which is what its ARP/NDP responders answer for - must equal those of freshly started speakers: the node answers for an address only while a service it currently announces holds it; non-trivial = a withdraw-causing event happened", Assumptions: spkAssumptions},
 		genSpkCase, func(c spkCase, tr *vw.Trace) *vw.Violation { return runSpk(c, tr, false, true) })
+}
+
+func TestVerifC18Spk(t *testing.T) {
+	vw.Run(t, vw.Options{Property: "C18", Engine: "speaker", Rule: spkRule + "; at every quiescence the resources are reconciled once more from the unchanged store: the real ConfigReconciler must not deliver the configuration to the real speaker again (nothing the speaker does with the configuration it was given may make the next computation look different); non-trivial = such a reconcile happened after an accepted configuration", Assumptions: spkAssumptions},
+		genSpkCase, func(c spkCase, tr *vw.Trace) *vw.Violation { return runSpk(c, tr, false, false, "c18") })
 }
